@@ -20,6 +20,8 @@ import (
 	"strings"
 
 	"github.com/nspcc-dev/neo-go/pkg/config"
+	"github.com/nspcc-dev/neo-go/pkg/core/dao"
+	"github.com/nspcc-dev/neo-go/pkg/core/interop"
 	"github.com/nspcc-dev/neo-go/pkg/core/interop/interopnames"
 	"github.com/nspcc-dev/neo-go/pkg/core/native"
 	"github.com/nspcc-dev/neo-go/pkg/core/native/nativenames"
@@ -71,6 +73,11 @@ type c16Env struct {
 	pcBroken   bool // the restart failed: reported once, the remaining restart cases are skipped
 	// cache of hand-built contract states for the stored-form cases
 	stCallee map[string]*state.Contract
+	// generic-argument parameter list for a method of an older hard-fork table (nil: use the latest table)
+	parOverride []manifest.Parameter
+	// a second chain on which hard-fork k activates at height 3k: swept at each stage
+	hc      *c16Chain
+	hcStage int
 }
 
 type c16Raw func(w *io.BinWriter) // code leaving exactly one item on the stack
@@ -263,6 +270,7 @@ type c16SysIn struct {
 	Name  string `json:"name"`
 	Flags int    `json:"flags"`
 	Trig  string `json:"trigger,omitempty"` // "" application (through the proxy); "onpersist"/"postpersist": entry script with flags f
+	WL    int    `json:"wl,omitempty"`      // 1 / 2: the proxy method is put on the Policy fee whitelist (fee 0 / 7) first: system calls in it are free, flags unchanged
 }
 
 func (env *c16Env) sysArgs(name string) []any {
@@ -346,6 +354,10 @@ func (env *c16Env) runSys(co *caseOut, in c16SysIn) {
 	switch in.Trig {
 	case "":
 		script := c16Code(func(w *io.BinWriter) {
+			if in.WL > 0 {
+				c16EmitCall(w, env.nat[nativenames.Policy], "setWhitelistFeeContract", 15, env.P.Hash, c16SysMethod(in.Name), c16SysArity[in.Name], []int{0, 0, 7}[in.WL%3])
+				emit.Opcodes(w, opcode.DROP)
+			}
 			c16EmitCall(w, env.P.Hash, c16SysMethod(in.Name), in.Flags, env.sysArgs(in.Name)...)
 		})
 		obs, _ = env.c.invoke(script, env.signers, env.P.Hash, 2, trigger.Application, callflag.All, false)
@@ -484,6 +496,9 @@ func (env *c16Env) natArgs(in c16NatIn) []any {
 		return []any{1}
 	}
 	ps := env.natPar[key]
+	if env.parOverride != nil {
+		ps = env.parOverride
+	}
 	args := make([]any, len(ps))
 	for i, p := range ps {
 		switch p.Type {
@@ -552,6 +567,184 @@ func (env *c16Env) runNative(co *caseOut, in c16NatIn) {
 	co.add("native", c16Tag(obs, gateOK), gateOK, in, obs,
 		fmt.Sprintf("CNat %s%%string %s%%string %d %d %s %s %s %s", coqStr(in.Contract), coqStr(in.Method), in.Arity, in.Flags,
 			coqBool(gateOK), coqBool(obs.Wrote), coqBool(obs.Notified), coqBool(obs.Called)))
+}
+
+// ---------- native methods in other chain states ----------
+
+type c16NatStIn struct {
+	Contract string `json:"contract"`
+	Method   string `json:"method"`
+	Arity    int    `json:"arity"`
+	Flags    int    `json:"flags"`
+	Via      string `json:"via"`
+	HF       int    `json:"hf"` // hard-forks enabled: 0 none .. latest all (latest = the main chain with its full state)
+	WL       int    `json:"wl"` // 0 not whitelisted; 1 / 2: the method is put on the Policy fee whitelist with fee 0 / 7 first
+}
+
+func c16HFMethod(hf int, c, m string, a int) (interop.HFSpecificMethodAndPrice, bool) {
+	h := config.Hardfork(hf)
+	for _, n := range native.NewDefaultContracts(config.ProtocolConfiguration{}) {
+		md := n.Metadata()
+		if md.Name != c {
+			continue
+		}
+		if act := n.ActiveIn(); act != nil && act.Cmp(h) > 0 {
+			return interop.HFSpecificMethodAndPrice{}, false
+		}
+		for _, x := range md.HFSpecificContractMD(&h).Methods {
+			if x.MD.Name == m && len(x.MD.Parameters) == a {
+				return x, true
+			}
+		}
+	}
+	return interop.HFSpecificMethodAndPrice{}, false
+}
+
+// the staged chain: hard-fork k activates at height 3k; stage k = height 3k (hard-forks 1..k enabled, k+1.. not yet)
+func (env *c16Env) stagedChain(k int) (c *c16Chain, err error) {
+	defer func() {
+		if r := recover(); r != nil {
+			err = fmt.Errorf("staged chain: %v", r)
+		}
+	}()
+	if env.hc == nil || env.hcStage > k {
+		if env.hc != nil {
+			env.hc.close()
+		}
+		env.hc = c16NewChainHF(nil, func(hf config.Hardfork) uint32 { return 3 * uint32(hf) })
+		env.hcStage = 0
+	}
+	if want := uint32(3 * k); env.hc.bc.BlockHeight() < want {
+		env.hc.e.GenerateNewBlocks(env.hc.t, int(want-env.hc.bc.BlockHeight()))
+	}
+	env.hcStage = k
+	return env.hc, nil
+}
+
+func (env *c16Env) runNativeSt(co *caseOut, in c16NatStIn) {
+	latest := int(config.HFLatestKnown)
+	nh, ok := env.nat[in.Contract]
+	mm, ok2 := c16HFMethod(in.HF, in.Contract, in.Method, in.Arity)
+	if !ok || !ok2 || in.HF < 0 || in.HF > latest {
+		co.violation("nativest", "harness: unknown native method for this hard-fork", in, nil)
+		return
+	}
+	ch := env.c
+	if in.HF != latest {
+		var err error
+		if ch, err = env.stagedChain(in.HF); err != nil {
+			co.violation("nativest", "harness: "+err.Error(), in, nil)
+			return
+		}
+		in.WL, in.Via = 0, "entry" // no proxy and no whitelist on the staged chain
+	}
+	env.parOverride = mm.MD.Parameters
+	args := env.natArgs(c16NatIn{Contract: in.Contract, Method: in.Method, Arity: in.Arity, Flags: in.Flags, Via: in.Via})
+	env.parOverride = nil
+	pol := env.nat[nativenames.Policy]
+	fee := []int{0, 0, 7}[in.WL%3]
+	depth := 2
+	script := c16Code(func(w *io.BinWriter) {
+		if in.Via == "proxy" {
+			depth = 3
+			if in.WL > 0 { // the whitelisting call runs at depth 2, the method under test at depth 3
+				c16EmitCall(w, pol, "setWhitelistFeeContract", 15, nh, in.Method, in.Arity, fee)
+				emit.Opcodes(w, opcode.DROP)
+			}
+			c16EmitCall(w, env.P.Hash, "fwd", 15, nh, in.Method, in.Flags, args)
+		} else {
+			if in.WL > 0 { // the whitelisting call runs at depth 3 (through the proxy), the method under test at depth 2
+				c16EmitCall(w, env.P.Hash, "fwd", 15, pol, "setWhitelistFeeContract", 15, []any{nh, in.Method, in.Arity, fee})
+				emit.Opcodes(w, opcode.DROP)
+			}
+			c16EmitCall(w, nh, in.Method, in.Flags, args...)
+		}
+	})
+	obs, ic := ch.invoke(script, env.signers, nh, depth, trigger.Application, callflag.All, false)
+	if !obs.Reached {
+		co.violation("nativest", "harness: frame under test not reached: "+obs.Fault, in, obs)
+		return
+	}
+	if in.WL > 0 { // the state really is the one intended
+		if p, ok := ic.PolicyChecker.(interface {
+			WhitelistedFee(*dao.Simple, util.Uint160, int) int64
+		}); !ok || p.WhitelistedFee(ic.DAO, nh, mm.MD.Offset) < 0 {
+			co.violation("nativest", "harness: the method is not on the fee whitelist after setWhitelistFeeContract: "+obs.Fault, in, obs)
+			return
+		}
+	}
+	gateOK := !obs.GateFault
+	ff := in.Flags
+	if mm.MD.Safe {
+		ff &^= int(callflag.WriteStates | callflag.AllowNotify)
+	}
+	f := callflag.CallFlag(ff)
+	if obs.Wrote && !f.Has(callflag.WriteStates) {
+		co.violation("nativest", fmt.Sprintf("storage changed by a native frame without WriteStates (flags %04b, hard-fork %d, whitelist state %d), keys %v", ff, in.HF, in.WL, obs.Keys), in, obs)
+	}
+	if obs.Notified && !f.Has(callflag.AllowNotify) && in.HF >= int(config.HFFaun) {
+		co.violation("nativest", fmt.Sprintf("event emitted by a native frame without AllowNotify (flags %04b, hard-fork %d, whitelist state %d): %v", ff, in.HF, in.WL, obs.Events), in, obs)
+	}
+	if !f.Has(mm.RequiredFlags) && in.HF >= 1 && (obs.Wrote || obs.Notified || obs.Called) {
+		co.violation("nativest", fmt.Sprintf("native method ran with flags %04b although it requires %04b (hard-fork %d, whitelist state %d)", ff, mm.RequiredFlags, in.HF, in.WL), in, obs)
+	}
+	tag := fmt.Sprintf("hf%d/wl%d/%s", in.HF, in.WL, c16Tag(obs, gateOK))
+	co.add("nativest", tag, gateOK, in, obs,
+		fmt.Sprintf("CNatSt %d %d %s%%string %s%%string %d %d %s %s %s %s", in.HF, in.WL, coqStr(in.Contract), coqStr(in.Method), in.Arity, in.Flags,
+			coqBool(gateOK), coqBool(obs.Wrote), coqBool(obs.Notified), coqBool(obs.Called)))
+}
+
+// the flag sets that discriminate a gate for required flags req: nothing, everything, exactly req, req minus one bit
+func c16DiscFlags(req int) []int {
+	out := []int{0, 15, req}
+	for _, b := range []int{1, 2, 4, 8} {
+		if req&b != 0 {
+			out = append(out, req&^b)
+		}
+	}
+	seen := map[int]bool{}
+	var r []int
+	for _, x := range out {
+		if !seen[x] {
+			seen[x] = true
+			r = append(r, x)
+		}
+	}
+	return r
+}
+
+// a contract blocked by Policy must not run, whoever calls it
+type c16BlockedIn struct {
+	Shape string `json:"shape"` // direct | nested | payment
+}
+
+func (env *c16Env) runBlocked(co *caseOut, in c16BlockedIn) {
+	pol, gas := env.nat[nativenames.Policy], env.nat[nativenames.Gas]
+	script := c16Code(func(w *io.BinWriter) {
+		c16EmitCall(w, pol, "blockAccount", 15, env.Z.Hash)
+		emit.Opcodes(w, opcode.ASSERT) // blockAccount returned true
+		switch in.Shape {
+		case "nested":
+			c16EmitCall(w, env.P.Hash, "callz", 15)
+		case "payment":
+			c16EmitCall(w, gas, "transfer", 15, env.c.owner.ScriptHash(), env.Z.Hash, 1, nil)
+		default:
+			c16EmitCall(w, env.Z.Hash, "nop", 15)
+		}
+	})
+	obs, _ := env.c.invoke(script, env.signers, util.Uint160{}, 1, trigger.Application, callflag.All, false)
+	ran := false
+	for _, h := range obs.Callees {
+		ran = ran || h == env.Z.Hash.StringLE()
+	}
+	if ran {
+		co.violation("blocked", "a contract blocked by Policy.blockAccount was executed", in, obs)
+	}
+	if !strings.Contains(obs.Fault, "blocked") {
+		co.violation("blocked", "harness: expected the call into the blocked contract to be refused: "+obs.State+" "+obs.Fault, in, obs)
+		return
+	}
+	co.add("blocked", in.Shape, true, in, obs, fmt.Sprintf("CBlocked %s", coqBool(ran)))
 }
 
 var c16SafeCache map[string]bool
@@ -1477,6 +1670,11 @@ func runC16(cmd string, args []string) error {
 	}
 	defer env.c.close()
 	defer env.closePerm()
+	defer func() {
+		if env.hc != nil {
+			env.hc.close()
+		}
+	}()
 	want := func(k string) bool { return *only == "" || strings.Contains(","+*only+",", ","+k+",") }
 
 	if cf.replay != "" {
@@ -1516,6 +1714,14 @@ func runC16(cmd string, args []string) error {
 				var in c16PermIn
 				json.Unmarshal(x.Input, &in)
 				env.runPermCall(co, in)
+			case "nativest":
+				var in c16NatStIn
+				json.Unmarshal(x.Input, &in)
+				env.runNativeSt(co, in)
+			case "blocked":
+				var in c16BlockedIn
+				json.Unmarshal(x.Input, &in)
+				env.runBlocked(co, in)
 			case "callback":
 				var in c16CbIn
 				json.Unmarshal(x.Input, &in)
@@ -1548,6 +1754,10 @@ func runC16(cmd string, args []string) error {
 
 	r := newRng(cf.seed)
 	thorough := cf.tier == "thorough"
+	all16 := make([]int, 16)
+	for i := range all16 {
+		all16[i] = i
+	}
 	ex := cmd == "c16" // exhaustive part
 	// (i) flag sweeps: exhaustive
 	if ex && want("sys") {
@@ -1621,6 +1831,54 @@ func runC16(cmd string, args []string) error {
 		for _, tp := range c16TokPerms {
 			for _, fin := range c16FinalOrder {
 				env.runCallTPerm(co, c16PermIn{Ops: []c16Perm{tp}, Method: c16Finals[fin]})
+			}
+		}
+	}
+	// state-dependent paths of the gates: (a) each native method on the fee whitelist (fee 0 and > 0), called by the
+	// entry script and by a contract; (b) the method tables of every hard-fork on a chain where hard-fork k activates
+	// at height 3k; (c) a blocked contract; (d) the proxy's system-call methods on the fee whitelist.
+	// quick: the flag sets that discriminate each method's gate; thorough: all 16
+	if ex && want("nativest") {
+		latest := int(config.HFLatestKnown)
+		flagsFor := func(req int) []int {
+			if thorough {
+				return all16
+			}
+			return c16DiscFlags(req)
+		}
+		for _, m := range c16NativeMethods(config.HFLatestKnown) {
+			for _, wl := range []int{1, 2} {
+				for _, via := range []string{"entry", "proxy"} {
+					if !thorough && wl == 2 && via == "proxy" {
+						continue
+					}
+					for _, fl := range flagsFor(int(m.Flags)) {
+						env.runNativeSt(co, c16NatStIn{Contract: m.Contract, Method: m.Name, Arity: m.Arity, Flags: fl, Via: via, HF: latest, WL: wl})
+					}
+				}
+			}
+		}
+		for hf := 0; hf < latest; hf++ {
+			for _, m := range c16NativeMethods(config.Hardfork(hf)) {
+				for _, fl := range flagsFor(int(m.Flags)) {
+					env.runNativeSt(co, c16NatStIn{Contract: m.Contract, Method: m.Name, Arity: m.Arity, Flags: fl, Via: "entry", HF: hf})
+				}
+			}
+		}
+		for _, sh := range []string{"direct", "nested", "payment"} {
+			env.runBlocked(co, c16BlockedIn{Shape: sh})
+		}
+	}
+	if ex && want("sys") {
+		for _, f := range c16Interops() {
+			for _, wl := range []int{1, 2} {
+				fls := c16DiscFlags(int(f.RequiredFlags))
+				if thorough {
+					fls = all16
+				}
+				for _, fl := range fls {
+					env.runSys(co, c16SysIn{Name: f.Name, Flags: fl, WL: wl})
+				}
 			}
 		}
 	}
@@ -1781,7 +2039,7 @@ func runC16(cmd string, args []string) error {
 	co.extra["exhaustive"] = ex && *only == ""
 	if ex {
 		co.extra["x_universe"] = "sys: all system calls of the table x 16 flag sets (block-trigger calls: the node's flag set and the refused ones); native: all methods (latest hard-fork set) x 16 flag sets x {called by the entry script, called by a contract}; " +
-			"callback: 8 native->contract callback paths (GAS/NEO transfer, vote, blockAccount, destroy, deploy, update, Notary deposit) x 4 capability probes x 16 flag sets; chain: all chains of length 0 and 1 (16 x 3 hop kinds x 16 x 5 finals); callt: 16 frame flag sets x 16 token flag sets x 6 final methods through the CALLT opcode, and 5 restricted-permission CALLT callers x 6 methods; perm1: 6 descriptors x 5 method lists x 12 callees x 3 methods; permitem: the 30 permissions' real stack items; permstored: 30 permissions x 12 callees x 4 methods x 3 stored forms; permcall: 30 single-permission deployed callers x 3 deployed callees x 4 methods, before and after a node restart over the same LevelDB; " +
+			"nativest: every native method on the Policy fee whitelist (fee 0 / 7; called by entry and by a contract) and every method of every older hard-fork table on a chain staged through the hard-forks, under the flag sets that discriminate its gate (thorough: all 16); the proxy's system-call methods whitelisted; calls into a blocked contract; callback: 8 native->contract callback paths (GAS/NEO transfer, vote, blockAccount, destroy, deploy, update, Notary deposit) x 4 capability probes x 16 flag sets; chain: all chains of length 0 and 1 (16 x 3 hop kinds x 16 x 5 finals); callt: 16 frame flag sets x 16 token flag sets x 6 final methods through the CALLT opcode, and 5 restricted-permission CALLT callers x 6 methods; perm1: 6 descriptors x 5 method lists x 12 callees x 3 methods; permitem: the 30 permissions' real stack items; permstored: 30 permissions x 12 callees x 4 methods x 3 stored forms; permcall: 30 single-permission deployed callers x 3 deployed callees x 4 methods, before and after a node restart over the same LevelDB; " +
 			"thorough adds chains of length 2 over 6 flag sets and all pairs of permissions with distinct descriptors"
 	}
 	co.extra["x_witnessed"] = c16Witnessed(co)
